@@ -8,32 +8,33 @@
 // ---------------------------------------------------------------- frame builders (Vec3::length opaque)
 // order and modules: nextFrame (Gen/C09Next), Quat::setRotation (Gen/C09Quat) and alignZAxisWithTargetDir (Gen/C09Align) first and in their
 // own modules, so that an edit to another frame builder does not renumber them (their tree theorems take minutes to re-elaborate)
-// nextFrame calls `acosf` whatever T is: the model's `acos` parameter stands for `x ↦ T(acosf(float(x)))`, so the
-// bitwise translator validation is run at float only (at double the tree's ACOS node would be evaluated by std::acos(double)).
+// nextFrame calls `std::acos (dot)` (since fix 13e5c51; before, the C function `acosf` for every T): plain EXTRACT, i.e. the bitwise
+// translator validation runs at float AND double.  There is deliberately NO `symns::acosf` shim any more: a regression to `acosf (dot)`
+// does not compile at T = Sym (extractor build fails -> VIOLATION), and `std::acos ((float) dot)` fails TV at double bitwise.
 // It also normalises its tangent arguments in place (non-const references): they are returned as 2nd and 3rd result.
-#define EXTRACT_FLOATONLY(module, ident, leanname, ...)                                                \
-    struct X_##ident { template <class T> static void run (symns::Ctx<T>& c) __VA_ARGS__ };            \
-    static int reg_##ident = (symns::entries ().push_back (symns::Entry{module, leanname, symns::Opts (), &X_##ident::run<symns::Sym>, \
-        {{"float", symns::makeTV<float> (&X_##ident::run<float>)}}, symns::makeRun (&X_##ident::run<double>)}), 0);
-EXTRACT_FLOATONLY ("C09Next", fr_nextFrame, "Frame.nextFrame",
-                   { IN (Matrix44, Mi); IN (Vec3, pi); IN (Vec3, pj); IN (Vec3, ti); IN (Vec3, tj); Matrix44<T> r = nextFrame (Mi, pi, pj, ti, tj); c.out (r); c.out (ti); c.out (tj); })
+// FRAME_OPTS: extra TV inputs from the small-integer lattice {-2..2} with 0-75 % zeros (zero vectors, axis-aligned and exactly parallel /
+// opposite pairs arise there): the inputs on which the fallback leaves of the trees are reached; leaves reached are reported (TVPATHS) and
+// tools/props/c09.py obliges a floor per tree
+#define FRAME_OPTS symns::Opts ().lattice (2500)
+EXTRACT_OPT ("C09Next", fr_nextFrame, "Frame.nextFrame", FRAME_OPTS,
+         { IN (Matrix44, Mi); IN (Vec3, pi); IN (Vec3, pj); IN (Vec3, ti); IN (Vec3, tj); Matrix44<T> r = nextFrame (Mi, pi, pj, ti, tj); c.out (r); c.out (ti); c.out (tj); })
 // rotationMatrix(from,to) = Quat::setRotation(from,to).toMatrix44(): the two halves are extracted separately (inlined, the
 // tree has ~850 shared sub-terms and Lean's elaborator runs out of recursion depth); sym_c09up.cpp extracts rotationMatrix itself
 // with Quat::setRotation as an opaque call of `Frame.quatSetRotation`.
-EXTRACT ("C09Quat", fr_quatSetRotation, "Frame.quatSetRotation", { IN (Quat, q); IN (Vec3, fromDir); IN (Vec3, toDir); q.setRotation (fromDir, toDir); c.out (q); })
+EXTRACT_OPT ("C09Quat", fr_quatSetRotation, "Frame.quatSetRotation", FRAME_OPTS, { IN (Quat, q); IN (Vec3, fromDir); IN (Vec3, toDir); q.setRotation (fromDir, toDir); c.out (q); })
 EXTRACT ("C09Quat", fr_quatToMatrix44, "Frame.quatToMatrix44", { IN (Quat, q); c.out (q.toMatrix44 ()); })
-EXTRACT ("C09Align", fr_alignZ, "Frame.alignZAxisWithTargetDir",
+EXTRACT_OPT ("C09Align", fr_alignZ, "Frame.alignZAxisWithTargetDir", FRAME_OPTS,
          { IN (Vec3, targetDir); IN (Vec3, upDir); Matrix44<T> result (UNINITIALIZED); alignZAxisWithTargetDir (result, targetDir, upDir); c.out (result); })
 // rotationMatrixWithUpDir: extracted by sym_c09up.cpp (module C09Up) with alignZAxisWithTargetDir opaque (inlined: 1201 paths)
-EXTRACT ("C09Frame", fr_computeLocalFrame, "Frame.computeLocalFrame", { IN (Vec3, p); IN (Vec3, xDir); IN (Vec3, normal); c.out (computeLocalFrame (p, xDir, normal)); })
+EXTRACT_OPT ("C09Frame", fr_computeLocalFrame, "Frame.computeLocalFrame", FRAME_OPTS, { IN (Vec3, p); IN (Vec3, xDir); IN (Vec3, normal); c.out (computeLocalFrame (p, xDir, normal)); })
 EXTRACT ("C09Frame", fr_addOffset, "Frame.addOffset",
          { IN (Matrix44, inMat); IN (Vec3, tOffset); IN (Vec3, rOffset); IN (Vec3, sOffset); IN (Matrix44, ref); c.out (addOffset (inMat, tOffset, rOffset, sOffset, ref)); })
-EXTRACT ("C09Frame", fr_firstFrame, "Frame.firstFrame", { IN (Vec3, pi); IN (Vec3, pj); IN (Vec3, pk); c.out (firstFrame (pi, pj, pk)); })
+EXTRACT_OPT ("C09Frame", fr_firstFrame, "Frame.firstFrame", FRAME_OPTS, { IN (Vec3, pi); IN (Vec3, pj); IN (Vec3, pk); c.out (firstFrame (pi, pj, pk)); })
 EXTRACT ("C09Frame", fr_lastFrame, "Frame.lastFrame", { IN (Matrix44, Mi); IN (Vec3, pi); IN (Vec3, pj); c.out (lastFrame (Mi, pi, pj)); })
 
 // ---------------------------------------------------------------- Matrix44
 EXTRACT ("C09Mat", m44_setEuler, "M44.setEulerAngles", { IN (Matrix44, m); IN (Vec3, r); m.setEulerAngles (r); c.out (m); })
-EXTRACT ("C09Mat", m44_setAxisAngle, "M44.setAxisAngle", { IN (Matrix44, m); IN (Vec3, axis); T angle = c.inS ("angle"); m.setAxisAngle (axis, angle); c.out (m); })
+EXTRACT_OPT ("C09Mat", m44_setAxisAngle, "M44.setAxisAngle", FRAME_OPTS, { IN (Matrix44, m); IN (Vec3, axis); T angle = c.inS ("angle"); m.setAxisAngle (axis, angle); c.out (m); })
 EXTRACT ("C09Mat", m44_rotate, "M44.rotate", { IN (Matrix44, m); IN (Vec3, r); m.rotate (r); c.out (m); })
 EXTRACT ("C09Mat", m44_setScaleS, "M44.setScaleS", { IN (Matrix44, m); T s = c.inS ("s"); m.setScale (s); c.out (m); })
 EXTRACT ("C09Mat", m44_setScaleV, "M44.setScaleV", { IN (Matrix44, m); IN (Vec3, s); m.setScale (s); c.out (m); })
@@ -69,3 +70,18 @@ EXTRACT ("C09Mat", m22_setScaleS, "M22.setScaleS", { IN (Matrix22, m); T s = c.i
 EXTRACT ("C09Mat", m22_setScaleV, "M22.setScaleV", { IN (Matrix22, m); IN (Vec2, s); m.setScale (s); c.out (m); })
 EXTRACT ("C09Mat", m22_scale, "M22.scale", { IN (Matrix22, m); IN (Vec2, s); m.scale (s); c.out (m); })
 
+
+// ---------------------------------------------------------------- the value RETURNED by the other in-place forms (audit W10)
+// every in-place form returns `*this`; a body that returned a copy made before the update would leave the entries above unchanged.
+// (appended at the END so that no earlier entry is renumbered)
+EXTRACT ("C09Mat", m44_scaleRet, "M44.scaleRet", { IN (Matrix44, m); IN (Vec3, s); Matrix44<T> r = m.scale (s); c.out (r); })
+EXTRACT ("C09Mat", m44_shearVRet, "M44.shearVRet", { IN (Matrix44, m); IN (Vec3, h); Matrix44<T> r = m.shear (h); c.out (r); })
+EXTRACT ("C09Mat", m44_shear6Ret, "M44.shear6Ret", { IN (Matrix44, m); IN (Shear6, h); Matrix44<T> r = m.shear (h); c.out (r); })
+EXTRACT ("C09Mat", m44_rotateRet, "M44.rotateRet", { IN (Matrix44, m); IN (Vec3, r); Matrix44<T> q = m.rotate (r); c.out (q); })
+EXTRACT ("C09Mat", m33_translateRet, "M33.translateRet", { IN (Matrix33, m); IN (Vec2, t); Matrix33<T> r = m.translate (t); c.out (r); })
+EXTRACT ("C09Mat", m33_scaleRet, "M33.scaleRet", { IN (Matrix33, m); IN (Vec2, s); Matrix33<T> r = m.scale (s); c.out (r); })
+EXTRACT ("C09Mat", m33_shearSRet, "M33.shearSRet", { IN (Matrix33, m); T xy = c.inS ("xy"); Matrix33<T> r = m.shear (xy); c.out (r); })
+EXTRACT ("C09Mat", m33_shearVRet, "M33.shearVRet", { IN (Matrix33, m); IN (Vec2, h); Matrix33<T> r = m.shear (h); c.out (r); })
+EXTRACT ("C09Mat", m33_rotateRet, "M33.rotateRet", { IN (Matrix33, m); T r = c.inS ("r"); Matrix33<T> q = m.rotate (r); c.out (q); })
+EXTRACT ("C09Mat", m22_rotateRet, "M22.rotateRet", { IN (Matrix22, m); T r = c.inS ("r"); Matrix22<T> q = m.rotate (r); c.out (q); })
+EXTRACT ("C09Mat", m22_scaleRet, "M22.scaleRet", { IN (Matrix22, m); IN (Vec2, s); Matrix22<T> r = m.scale (s); c.out (r); })
